@@ -2,6 +2,7 @@ package core
 
 import (
 	"go/ast"
+	"go/token"
 	"go/types"
 	"regexp"
 	"sort"
@@ -132,8 +133,73 @@ func keyStr(f *Func, n ast.Node, uniform string) string {
 	if p == nil {
 		return ExprStr(n)
 	}
-	tk := p.tokensOf(f.Root())
-	info := f.Pkg.TypesInfo
+	kp := &keyPrinter{f: f, info: f.Pkg.TypesInfo, tk: p.tokensOf(f.Root()), uniform: uniform}
+	if e, ok := n.(ast.Expr); ok {
+		s := kp.expr(e, true, 0)
+		if uniform == "" && !NoKeyExpansion {
+			// remember the short form (locals not replaced by their definitions) of what was printed: ShortKey
+			NoKeyExpansion = true
+			short := kp.expr(e, true, 0)
+			NoKeyExpansion = false
+			if short != s {
+				keyShorts[s] = short
+			}
+		}
+		return s
+	}
+	return kp.fallback(n)
+}
+
+var keyShorts = map[string]string{}
+
+// ShortKey returns the key with every expression that KeyStr printed in expanded form (a local replaced by its pure
+// definition) put back to its short form. A construct whose value is computed in place (`n := a - b; make(n)`) and the
+// same construct with the computation moved into a helper (`n, err := sub(a, b); make(n)`) share the short form, so the
+// exemption tables are matched on either.
+func ShortKey(key string) string {
+	var exps []string
+	for e := range keyShorts {
+		if strings.Contains(key, e) {
+			exps = append(exps, e)
+		}
+	}
+	sort.Slice(exps, func(i, j int) bool {
+		if len(exps[i]) != len(exps[j]) {
+			return len(exps[i]) > len(exps[j])
+		}
+		return exps[i] < exps[j]
+	})
+	for _, e := range exps {
+		key = strings.ReplaceAll(key, e, keyShorts[e])
+	}
+	return key
+}
+
+// keyPrinter renders an expression in a canonical spelling: no spaces, binary sub-expressions always parenthesised,
+// a zero low slice bound omitted, locals replaced by their tokens, and a local that is assigned exactly once from a pure
+// expression (field selections, constants, arithmetic, conversions, len) replaced by that expression - so that
+// `buf[b.HashLen : b.HashLen+b.OffsetWidth]` and `hashEnd := b.HashLen; valueEnd := hashEnd + b.OffsetWidth; buf[hashEnd:valueEnd]`
+// name the same construct.
+// NoKeyExpansion switches the substitution of pure single-assignment locals off: the "short" form of a key, which is what
+// a construct gets when its value is computed elsewhere (a helper's result). Exemption tables carry both forms.
+var NoKeyExpansion = false
+
+// KeyStrShort is KeyStr without the substitution of locals by their definitions.
+func KeyStrShort(f *Func, n ast.Node) string {
+	old := NoKeyExpansion
+	NoKeyExpansion = true
+	defer func() { NoKeyExpansion = old }()
+	return keyStr(f, n, "")
+}
+
+type keyPrinter struct {
+	f       *Func
+	info    *types.Info
+	tk      *rootTokens
+	uniform string
+}
+
+func (kp *keyPrinter) fallback(n ast.Node) string {
 	type saved struct {
 		id   *ast.Ident
 		name string
@@ -145,18 +211,18 @@ func keyStr(f *Func, n ast.Node, uniform string) string {
 			return true
 		}
 		var o types.Object
-		if d := info.Defs[id]; d != nil {
+		if d := kp.info.Defs[id]; d != nil {
 			o = d
 		} else {
-			o = info.Uses[id]
+			o = kp.info.Uses[id]
 		}
 		if o == nil {
 			return true
 		}
-		if tok, ok := tk.byObj[o]; ok {
+		if tok, ok := kp.tk.byObj[o]; ok {
 			undo = append(undo, saved{id, id.Name})
-			if uniform != "" {
-				tok = uniform
+			if kp.uniform != "" {
+				tok = kp.uniform
 			}
 			id.Name = tok
 		}
@@ -167,6 +233,192 @@ func keyStr(f *Func, n ast.Node, uniform string) string {
 		u.id.Name = u.name
 	}
 	return s
+}
+
+func (kp *keyPrinter) typeText(e ast.Expr) string {
+	if t := kp.info.TypeOf(e); t != nil {
+		return strings.ReplaceAll(types.TypeString(t, qual), " ", "")
+	}
+	return strings.ReplaceAll(ExprStr(e), " ", "")
+}
+
+// pureDef returns the defining expression of a local that is assigned exactly once (by :=) from a pure expression.
+func (kp *keyPrinter) pureDef(o types.Object) ast.Expr {
+	v, ok := o.(*types.Var)
+	if !ok || v.IsField() {
+		return nil
+	}
+	root := kp.f.Root()
+	if root.Body == nil {
+		return nil
+	}
+	info := kp.info
+	var def ast.Expr
+	n := 0
+	ast.Inspect(root.Body, func(m ast.Node) bool {
+		switch s := m.(type) {
+		case *ast.AssignStmt:
+			for i, l := range s.Lhs {
+				lid, ok := l.(*ast.Ident)
+				if !ok || (info.Defs[lid] != o && info.Uses[lid] != o) {
+					continue
+				}
+				n++
+				if s.Tok == token.DEFINE && len(s.Rhs) == len(s.Lhs) {
+					def = s.Rhs[i]
+				}
+			}
+		case *ast.IncDecStmt:
+			if id, ok := s.X.(*ast.Ident); ok && info.Uses[id] == o {
+				n += 2
+			}
+		case *ast.RangeStmt:
+			for _, e := range []ast.Expr{s.Key, s.Value} {
+				if id, ok := e.(*ast.Ident); ok && (info.Defs[id] == o || info.Uses[id] == o) {
+					n += 2
+				}
+			}
+		case *ast.UnaryExpr:
+			if s.Op == token.AND {
+				if id, ok := unparen(s.X).(*ast.Ident); ok && info.Uses[id] == o {
+					n += 2
+				}
+			}
+		}
+		return true
+	})
+	if n != 1 || def == nil {
+		return nil
+	}
+	pure, hasField := true, false
+	ast.Inspect(def, func(m ast.Node) bool {
+		switch x := m.(type) {
+		case *ast.Ident, *ast.BasicLit, *ast.ParenExpr, *ast.BinaryExpr:
+		case *ast.SelectorExpr:
+			if sel := info.Selections[x]; sel != nil && sel.Kind() == types.FieldVal {
+				hasField = true
+			} else if sel != nil {
+				pure = false
+			}
+		case *ast.UnaryExpr:
+			if x.Op == token.AND || x.Op == token.ARROW {
+				pure = false
+			}
+		case *ast.CallExpr:
+			if tv, ok := info.Types[x.Fun]; ok && tv.IsType() {
+				return true
+			}
+			if id, ok := unparen(x.Fun).(*ast.Ident); ok {
+				if _, isB := info.Uses[id].(*types.Builtin); isB && id.Name == "len" {
+					return true
+				}
+			}
+			pure = false
+		default:
+			if _, isExpr := m.(ast.Expr); isExpr {
+				pure = false
+			}
+		}
+		return pure
+	})
+	// a plain copy of another variable keeps its own token: only definitions that say something (a field, arithmetic)
+	if _, isBin := unparen(def).(*ast.BinaryExpr); !pure || (!hasField && !isBin) {
+		return nil
+	}
+	return def
+}
+
+func (kp *keyPrinter) expr(e ast.Expr, top bool, depth int) string {
+	switch x := e.(type) {
+	case nil:
+		return ""
+	case *ast.ParenExpr:
+		return kp.expr(x.X, top, depth)
+	case *ast.Ident:
+		var o types.Object
+		if d := kp.info.Defs[x]; d != nil {
+			o = d
+		} else {
+			o = kp.info.Uses[x]
+		}
+		if o != nil {
+			if tok, ok := kp.tk.byObj[o]; ok {
+				if kp.uniform != "" {
+					return kp.uniform
+				}
+				if depth < 3 && !NoKeyExpansion {
+					if d := kp.pureDef(o); d != nil {
+						return kp.expr(d, top, depth+1)
+					}
+				}
+				return tok
+			}
+		}
+		return x.Name
+	case *ast.BasicLit:
+		return x.Value
+	case *ast.SelectorExpr:
+		return kp.expr(x.X, false, depth) + "." + x.Sel.Name
+	case *ast.BinaryExpr:
+		s := kp.expr(x.X, false, depth) + x.Op.String() + kp.expr(x.Y, false, depth)
+		if top {
+			return s
+		}
+		return "(" + s + ")"
+	case *ast.UnaryExpr:
+		return x.Op.String() + kp.expr(x.X, false, depth)
+	case *ast.StarExpr:
+		return "*" + kp.expr(x.X, false, depth)
+	case *ast.IndexExpr:
+		return kp.expr(x.X, false, depth) + "[" + kp.expr(x.Index, true, depth) + "]"
+	case *ast.SliceExpr:
+		lo := ""
+		if x.Low != nil {
+			if v, ok := ConstInt(kp.info, x.Low); !ok || v != 0 {
+				lo = kp.expr(x.Low, true, depth)
+			}
+		}
+		s := kp.expr(x.X, false, depth) + "[" + lo + ":" + kp.expr(x.High, true, depth)
+		if x.Max != nil {
+			s += ":" + kp.expr(x.Max, true, depth)
+		}
+		return s + "]"
+	case *ast.CallExpr:
+		var args []string
+		for _, a := range x.Args {
+			args = append(args, kp.expr(a, true, depth))
+		}
+		tail := ""
+		if x.Ellipsis.IsValid() {
+			tail = "..."
+		}
+		if tv, ok := kp.info.Types[x.Fun]; ok && tv.IsType() {
+			return strings.ReplaceAll(ExprStr(x.Fun), " ", "") + "(" + strings.Join(args, ",") + ")"
+		}
+		return kp.expr(x.Fun, false, depth) + "(" + strings.Join(args, ",") + tail + ")"
+	case *ast.TypeAssertExpr:
+		if x.Type == nil {
+			return kp.expr(x.X, false, depth) + ".(type)"
+		}
+		return kp.expr(x.X, false, depth) + ".(" + strings.ReplaceAll(ExprStr(x.Type), " ", "") + ")"
+	case *ast.KeyValueExpr:
+		k := ExprStr(x.Key)
+		if _, isId := x.Key.(*ast.Ident); !isId {
+			k = kp.expr(x.Key, true, depth)
+		}
+		return k + ":" + kp.expr(x.Value, true, depth)
+	case *ast.CompositeLit:
+		var elts []string
+		for _, el := range x.Elts {
+			elts = append(elts, kp.expr(el, true, depth))
+		}
+		t := ""
+		if x.Type != nil {
+			t = strings.ReplaceAll(ExprStr(x.Type), " ", "")
+		}
+		return t + "{" + strings.Join(elts, ",") + "}"
+	}
+	return strings.ReplaceAll(kp.fallback(e), " ", "")
 }
 
 // LocalToken returns the canonical token of a local variable of f's declared function ("" if o is not one).
@@ -301,3 +553,4 @@ func ContainsCanon(s, w string) bool {
 
 // RootKey returns the key of the declared function f belongs to.
 func (f *Func) RootKey() string { return f.Root().Key }
+
